@@ -670,6 +670,40 @@ pub fn run(run: &Run) {
                 run.violation(&format!("[{}] {s:?}: {msg}", f.name), json!({"op": "parse_sequence", "format": f.name, "inputs": [plain, s, plain, s]}), &[]);
             }
         });
+        // every code point of the BMP (thorough: every scalar value) at the start, at the end and at both
+        // ends of a complete sentence and of a bare term: the three routes must agree
+        {
+            let bases = [alpha.iter().find(|(n, _)| *n == "sentence-bare").map(|(_, s)| s.clone()).unwrap_or_default(), "a".to_string()];
+            let top: u32 = if tier == Tier::Thorough { 0x10FFFF } else { 0xFFFF };
+            let extra: Vec<u32> = if tier == Tier::Thorough { vec![] } else { (0x10000u32..=0x10FFFF).step_by(61).collect() };
+            let cps: Vec<char> = (0..=top).chain(extra).filter_map(char::from_u32).collect();
+            run.count(&format!("code_points_wrapped_around_inputs_{}", f.name), cps.len() as u64);
+            cps.par_iter().for_each(|&c| {
+                for base in &bases {
+                    for s in [format!("{c}{base}"), format!("{base}{c}"), format!("{c}{base}{c}")] {
+                        run.eval(3);
+                        let a = outcome(&ops::parse_enum(&f, &s));
+                        let b = quiet_catch(AssertUnwindSafe(|| outcome(&f.e.parse_chars::<Narsese>(s.chars().collect()).map_err(|e| e.to_string()))));
+                        let m = quiet_catch(AssertUnwindSafe(|| f.e.parse_multi([s.as_str()]).into_iter().map(|r| outcome(&r.map_err(|e| e.to_string()))).collect::<Vec<_>>()));
+                        let bad = match (&b, &m) {
+                            (Ok(b), Ok(m)) => {
+                                if *b != a {
+                                    Some(format!("parse_chars gives {} but parse gives {}", show_outcome(b), show_outcome(&a)))
+                                } else if m.len() != 1 || m[0] != a {
+                                    Some(format!("parse_multi([s]) gives {:?} but parse gives {}", m.iter().map(show_outcome).collect::<Vec<_>>(), show_outcome(&a)))
+                                } else {
+                                    None
+                                }
+                            }
+                            _ => Some("parse_chars / parse_multi panics".to_string()),
+                        };
+                        if let Some(msg) = bad {
+                            run.violation(&format!("[{}] {s:?}: {msg}", f.name), json!({"op": "parse_sequence", "format": f.name, "inputs": [s]}), &[]);
+                        }
+                    }
+                }
+            });
+        }
         // parse_chars == parse, parse twice
         for (_, s) in &alpha {
             run.eval(2);
